@@ -323,11 +323,11 @@ class Crazyflie():
         for timer in list(answer_patterns.values()):
             timer.cancel()
 
-    def _no_answer_do_retry(self, pk, pattern, timeout=0.2):
+    def _no_answer_do_retry(self, pk, pattern, timeout=0.2, link=None):
         """Resend packets that we have not gotten answers to"""
         logger.info('Resending for pattern %s', pattern)
         # Set the timer to None before trying to send again
-        self.send_packet(pk, expected_reply=pattern, resend=True, timeout=timeout)
+        self.send_packet(pk, expected_reply=pattern, resend=True, timeout=timeout, _resend_on=link)
 
     def _check_for_answers(self, pk):
         """
@@ -353,7 +353,7 @@ class Crazyflie():
         if timer is not None:
             timer.cancel()
 
-    def send_packet(self, pk, expected_reply=(), resend=False, timeout=0.2):
+    def send_packet(self, pk, expected_reply=(), resend=False, timeout=0.2, _resend_on=None):
         """
         Send a packet through the link interface.
 
@@ -378,10 +378,18 @@ class Crazyflie():
                 new_timer = Timer(timeout,
                                   lambda: self._no_answer_do_retry(pk,
                                                                    pattern,
-                                                                   timeout))
+                                                                   timeout,
+                                                                   link))
                 with self._answer_lock:
                     self._answer_patterns[pattern] = new_timer
                     new_timer.start()
+            elif resend and _resend_on is not None and link is not _resend_on:
+                # The request was sent on a link that is gone (a send racing
+                # with close_link can register its timer after the timers of
+                # that link were cancelled): it is not resent on another link
+                logger.debug('Resend requested for a link that is gone')
+                self._send_lock.release()
+                return
             elif resend:
                 # Check if we have gotten an answer, if not try again
                 pattern = expected_reply
@@ -394,7 +402,7 @@ class Crazyflie():
                         new_timer = Timer(timeout,
                                           lambda:
                                           self._no_answer_do_retry(
-                                              pk, pattern, timeout))
+                                              pk, pattern, timeout, link))
                         self._answer_patterns[pattern] = new_timer
                         new_timer.start()
                 if still_pending:
